@@ -305,6 +305,7 @@ func checkProperty(p *Prog, loadErr error, pd *PropDef, tier string, start time.
 		}
 	}
 	var viols []violation
+	var planned []string
 	var kfLines []string
 	ruleEv := map[string]*RuleEvidence{}
 	var samples []any
@@ -337,7 +338,14 @@ func checkProperty(p *Prog, loadErr error, pd *PropDef, tier string, start time.
 			graphs = []bool{false, true}
 		}
 		seenHit := map[string]bool{}
-		rules := append([]string{"NOREFLECT"}, pd.Rules...)
+		rules := []string{"NOREFLECT"}
+		for _, rn := range pd.Rules {
+			if ruleTable[rn] == nil {
+				planned = append(planned, rn)
+				continue
+			}
+			rules = append(rules, rn)
+		}
 		for _, rn := range rules {
 			for gi, useVTA := range graphs {
 				if gi > 0 && !graphDependent[rn] {
@@ -453,6 +461,9 @@ func checkProperty(p *Prog, loadErr error, pd *PropDef, tier string, start time.
 		if p != nil {
 			cov["files_loaded"] = p.NFiles
 			cov["ssa_functions"] = len(p.Funcs)
+		}
+		if len(planned) > 0 {
+			cov["rules_designed_but_not_yet_built"] = planned
 		}
 		if ctl != nil {
 			cov["controls_fired"] = ctl.Fired
